@@ -14,7 +14,7 @@ pub const SPECIALS: [&str; 18] = [
     "|", " ", "#", "!", "\u{e9}", "\u{65e5}", "\u{1F600}", "\r", "\n", "\r\n", "\t", "%", "?", "\"", "\\", ":", "=", "\u{a0}",
 ];
 
-pub const OFFSETS: [i32; 11] = [0, 60, 120, 330, 345, 540, 840, -60, -300, -480, -720];
+pub const OFFSETS: [i32; 18] = [0, 60, 120, 330, 345, 540, 840, -60, -300, -480, -720, -210, -570, -150, -45, 765, 525, -1];
 
 /// 2019-01-01T00:00:00Z
 const T0: i64 = 1_546_300_800;
@@ -300,6 +300,19 @@ pub fn feature_cases() -> Vec<DbDesc> {
         // one hour apart around local midnight
         y.utc_secs = x.utc_secs - 3600;
         v.push(one("wow", vec![x, y]));
+    }
+    // every offset of the pool on the newer / on the older of two builds half an hour (and 100 s) apart
+    for off in OFFSETS {
+        for gap in [1800i64, 100] {
+            let (mut newer, mut older) = (b(), older_build());
+            newer.utc_secs = 1_704_103_200;
+            older.utc_secs = newer.utc_secs - gap;
+            newer.offset_min = off;
+            v.push(one("wow", vec![older.clone(), newer.clone()]));
+            newer.offset_min = 0;
+            older.offset_min = off;
+            v.push(one("wow", vec![newer, older]));
+        }
     }
     // mixed offsets: string order agrees / disagrees with time
     {
